@@ -56,6 +56,8 @@ type Contract struct {
 	Ensures    []*Clause
 	ExitReq    []*Clause
 	Invariants map[int][]*Clause
+	Mandatory  map[int]bool      // loop N mandatory: every return of the function is reached through this loop
+	Cases      map[int][]*Clause // case splits of the loop-preservation obligations (evaluated over the finished iteration)
 	Each       map[int][]*Clause // per-iteration clauses: asserted at every back edge, never assumed at the header
 	Defines    []*Clause         // defines ATOM(args): formula  (Var holds the atom expression)
 	Sets       []*Clause
@@ -297,7 +299,7 @@ func (sp *Spec) LoadFile(path, prefix string, external bool) error {
 			if m == nil {
 				return fmt.Errorf("%s: bad func header %q", where, line)
 			}
-			cur = &Contract{Name: m[1], Invariants: map[int][]*Clause{}, Each: map[int][]*Clause{}, External: external, Trusted: external, Source: where}
+			cur = &Contract{Name: m[1], Invariants: map[int][]*Clause{}, Each: map[int][]*Clause{}, Cases: map[int][]*Clause{}, Mandatory: map[int]bool{}, External: external, Trusted: external, Source: where}
 			if m[2] != "" {
 				cur.Params = splitTop(m[3], ',')
 			}
@@ -367,6 +369,20 @@ func (sp *Spec) LoadFile(path, prefix string, external bool) error {
 				return fmt.Errorf("%s: loop ordinal: %v", where, err)
 			}
 			rest := strings.TrimSpace(strings.Join(fields[2:], " "))
+			if rest == "mandatory" {
+				cur.Mandatory[n] = true
+				continue
+			}
+			if strings.HasPrefix(rest, "case ") {
+				// loop N case NAME: cond
+				cr := strings.TrimSpace(strings.TrimPrefix(rest, "case "))
+				ci := strings.Index(cr, ":")
+				if ci < 0 {
+					return fmt.Errorf("%s: expected 'loop N case NAME: cond'", where)
+				}
+				cur.Cases[n] = append(cur.Cases[n], &Clause{Kind: "case", Label: strings.TrimSpace(cr[:ci]), Expr: strings.TrimSpace(cr[ci+1:]), Loop: n, Line: where})
+				continue
+			}
 			isEach := false
 			if strings.HasPrefix(rest, "each") {
 				isEach = true
